@@ -711,11 +711,18 @@ impl Transformer {
         OutputList::from([OutputEvent::Start(new_svg)].as_slice()).write_to(writer)
     }
 
-    fn write_auto_styles(&self, events: &mut OutputList, writer: &mut dyn Write) -> Result<()> {
+    fn write_auto_styles(
+        &self,
+        events: &mut OutputList,
+        root_classes: &[String],
+        writer: &mut dyn Write,
+    ) -> Result<()> {
         // Collect the set of elements and classes so relevant styles can be
         // automatically added.
         let mut element_set = HashSet::new();
         let mut class_set = HashSet::new();
+        // (the root element has been written already and is not among `events`)
+        class_set.extend(root_classes.iter().cloned());
         for output_ev in events.iter() {
             match output_ev {
                 OutputEvent::Start(e) | OutputEvent::Empty(e) => {
@@ -798,12 +805,16 @@ impl Transformer {
             !matches!(ev, OutputEvent::Start(e) | OutputEvent::Empty(e)
                 if e.get_attr("xmlns").as_deref() == Some("http://www.w3.org/2000/svg"))
         };
+        let mut root_classes = Vec::new();
         if let (pre_svg, Some(first_svg), remain) = events.partition("svg") {
             if is_root_svg(&first_svg) {
                 pre_svg.write_to(writer)?;
                 // The root is always written as a start tag (styles etc may follow it),
                 // so an empty root element (`<svg/>`) needs a matching end tag adding.
                 let empty_root = matches!(first_svg, OutputEvent::Empty(_));
+                if let OutputEvent::Start(e) | OutputEvent::Empty(e) = &first_svg {
+                    root_classes = e.get_classes();
+                }
                 self.write_root_svg(first_svg, bbox, writer)?;
                 events = remain;
                 if empty_root {
@@ -834,7 +845,7 @@ impl Transformer {
         // Default behaviour: include auto defs/styles iff we have an SVG element,
         // i.e. this is a full SVG document rather than a fragment.
         if has_svg_element && self.context.config.add_auto_styles {
-            self.write_auto_styles(&mut events, writer)?;
+            self.write_auto_styles(&mut events, &root_classes, writer)?;
         }
 
         events.write_to(writer)
